@@ -6,7 +6,8 @@ DESCRIPTION = {
     "rule": ("Hypothesis RuleBasedStateMachine over a joined session (both frameworks): subscribe (same/different topics; plain callables, details=True, details_arg, "
              "decorated objects via @wamp.subscribe, incl. two methods decorated for the same topic with different options), SUBSCRIBED replies assigning new or *shared* subscription ids or ERROR, unsubscribe of any live handler, "
              "UNSUBSCRIBED/ERROR replies in any order, EVENTs for live ids, for ids with an unsubscribe in flight and for ids never held, with all payload shapes and optional "
-             "publisher/topic details; handler behaviours {return, raise, return a pending result, unsubscribe itself, unsubscribe a sibling during the callback}.  Oracle = "
+             "publisher/topic details; handler behaviours {return, raise, return a pending result, unsubscribe itself, unsubscribe a sibling during the callback, unsubscribe as soon as the "
+             "subscription is confirmed, subscribe one more handler to the same topic from inside the callback with the router confirming synchronously}.  Oracle = "
              "model id -> ordered list of attached handlers: on each EVENT exactly the handlers in the model at arrival are invoked once each, in subscription order, with exactly "
              "the published args/kwargs (no keys added by another handler's details) and EventDetails iff requested, whose .subscription is that handler's own Subscription object; a raising handler stops nothing and nothing escapes "
              "onMessage; no handler is invoked after its unsubscribe() returned; UNSUBSCRIBE is written exactly when a handler list becomes empty; events for an id whose removal "
@@ -64,6 +65,7 @@ class Interp:
         self.next_sid = 500
         self.pending_futs = []
         self.nontrivial = False
+        self.spawned = []
         self.saw_mutation_between_events = False
         self.events_on_multi = 0
 
@@ -85,6 +87,9 @@ class Interp:
                 f = txaio.create_future()
                 interp.pending_futs.append(f)
                 return f
+            if b == "subscribe-in-handler" and h.sub is not None and not getattr(h, "spawned", False) and getattr(h, "topic", None):
+                h.spawned = True
+                interp.spawn_sibling(h)
             if b == "unsub-self" and h.sub is not None and h.sub.active:
                 interp.unsubscribe_obj(h, from_handler=True)
             if b == "unsub-next" and h.sub is not None:
@@ -102,6 +107,32 @@ class Interp:
             def fn(*args, **kwargs):
                 return body(args, kwargs)
         return fn
+
+    def spawn_sibling(self, h):
+        """called from inside handler h while an EVENT is being dispatched: subscribe one more handler to the same topic; the (in-process) router
+        confirms at once, from inside transport.send(), with the same subscription id.  The new handler is attached from now on - not for this event."""
+        import txaio
+        h2 = H(len(self.handlers), "plain", "return")
+        h2.topic = h.topic
+        self.handlers.append(h2)
+        sid = h.sub.id
+        s, M = self.s, self.w.message
+        state = {"err": None}
+
+        def router(msg):
+            if type(msg).__name__ == "Subscribe":
+                try:
+                    s.onMessage(M.Subscribed(msg.request, sid))
+                except Exception as e:
+                    state["err"] = e
+        old = self.w.t.on_send
+        self.w.t.on_send = router
+        try:
+            fut = s.subscribe(self.make_fn(h2), h.topic)
+        finally:
+            self.w.t.on_send = old
+        txaio.add_callbacks(fut, lambda sub: setattr(h2, "sub", sub) or sub, lambda f: None)
+        self.spawned.append((h2, sid, state))
 
     def apply(self, step):
         from harness import core as _core
@@ -183,6 +214,7 @@ class Interp:
             self.w.track(fut)
             return
         h = H(len(self.handlers), kind, behaviour)
+        h.topic = topic
         o = None
         if kind == "details":
             o = SubscribeOptions(details=True)
@@ -366,13 +398,16 @@ class Interp:
         if err is not None:
             self.fail("event-dispatch-raised|" + exc_key(err), "%r escaped onMessage (handlers: %r)" % (err, [(h.hid, h.behaviour) for h in expected]))
             return
+        for h2, sid2, state in self.spawned:
+            if state["err"] is not None:
+                self.fail("subscribed-raised|" + exc_key(state["err"]), "SUBSCRIBED for a subscribe() made inside an event handler: %r" % (state["err"],))
         if len(expected) >= 2:
             self.events_on_multi += 1
             if self.saw_mutation_between_events or any(h.behaviour == "raise" for h in expected):
                 self.nontrivial = True
         order = []
         for h in self.handlers:
-            new = h.calls[counts[h.hid]:]
+            new = h.calls[counts.get(h.hid, 0):]
             dynamic_sibling = any(x.behaviour in ("unsub-self", "unsub-next") for x in expected)
             if h in expected:
                 removed_during = h.unsubscribed and dynamic_sibling
@@ -413,6 +448,13 @@ class Interp:
             if h.calls_after_unsub and not any(x.behaviour == "unsub-next" for x in expected):
                 self.fail("handler-invoked-after-unsubscribe", "handler %d" % h.hid)
             h.calls_after_unsub = 0
+        # handlers subscribed from inside a handler during this dispatch are attached from now on
+        for h2, sid2, state in self.spawned:
+            if h2.sub is None or h2.sub.id != sid2:
+                self.fail("subscription-object-missing", "handler %d subscribed inside a handler: %r" % (h2.hid, h2.sub))
+            elif sid2 in self.model and sid2 not in self.inflight:
+                self.model[sid2].append(h2)
+        self.spawned[:] = []
         # order among handlers of this id: compare the global call sequence
         seq = getattr(self, "_seq", None)
         self.saw_mutation_between_events = False
@@ -458,7 +500,7 @@ def make_machine_factory(col):
                 self.i.apply(step)
 
             @rule(topic=topics, kind=st.sampled_from(["plain", "plain", "details", "details_arg", "object", "object-opts"]),
-                  behaviour=st.sampled_from(["return", "return", "raise", "pending", "unsub-self", "unsub-next", "unsub-on-subscribed"]))
+                  behaviour=st.sampled_from(["return", "return", "raise", "pending", "unsub-self", "unsub-next", "unsub-on-subscribed", "subscribe-in-handler"]))
             def subscribe(self, topic, kind, behaviour):
                 self.ap("subscribe", topic, kind, behaviour)
 
